@@ -155,6 +155,13 @@ def main():
                    "anchors": [("_bottom", Fr(-10), Fr(-10))]},
                   {"name": "aacute", "unicodes": [0xE1], "width": 500, "contours": [], "anchors": [],
                    "components": [("a", (1, 0, 0, 1, 0, 0)), ("acutecomb", (1, 0, 0, 1, 270, 0))]}]
+            # a ligature composed of two single letters (each with `top`) and a ligature that already has numbered anchors
+            # (top_1, top_2): the propagated numbered anchors meet literal ones of the same name
+            fg += [{"name": "f", "unicodes": [0x66], "width": 300, "contours": sqf(0, 0, 200), "components": [], "anchors": [("top", Fr(100), Fr(700))]},
+                   {"name": "f_i", "unicodes": [0xFB01], "width": 550, "contours": sqf(0, 0, 450), "components": [],
+                    "anchors": [("top_1", Fr(110), Fr(710)), ("top_2", Fr(300), Fr(720))]},
+                   {"name": "f_f_f_i", "unicodes": [], "width": 1150, "contours": [], "anchors": [],
+                    "components": [("f", (1, 0, 0, 1, 0, 0)), ("f", (1, 0, 0, 1, 300, 0)), ("f_i", (1, 0, 0, 1, 600, 0))]}]
             if i % 2 == 0:
                 fg.append({"name": "dottedcircle", "unicodes": [0x25CC], "width": 600, "contours": sqf(100, 100, 400), "components": [],
                            "anchors": [("bottom", Fr(300), Fr(-20))] if i % 4 == 2 else []})
